@@ -1,0 +1,20 @@
+//go:build verif
+
+// Contracts for the verification engine in /verif (comment-only file; it is
+// compiled only with the build tag "verif" and contains no code).
+
+package thriftproto
+
+// C15: decoding never writes into a shared status
+//@ func (*tBinaryProto).binaryUnpack
+//@   property C15
+//@   requires msgOwnStatus(as(m, type(*socket.message)))
+//@ func (*tBinaryProto).Unpack
+//@   property C15
+//@   requires msgOwnStatus(as(m, type(*socket.message)))
+//@ func (*tStructProto).structUnpack
+//@   property C15
+//@   requires msgOwnStatus(as(m, type(*socket.message)))
+//@ func (*tStructProto).Unpack
+//@   property C15
+//@   requires msgOwnStatus(as(m, type(*socket.message)))
